@@ -3,6 +3,7 @@ package harness
 import (
 	"bytes"
 	"context"
+	"errors"
 	"fmt"
 	"reflect"
 	"sort"
@@ -297,6 +298,22 @@ func propDumpRestore(c *Case) {
 	})
 }
 
+// failWriter accepts left bytes, then fails.
+type failWriter struct{ left int }
+
+func (f *failWriter) Write(p []byte) (int, error) {
+	if len(p) > f.left {
+		n := f.left
+		f.left = 0
+
+		return n, errors.New("injected write error")
+	}
+
+	f.left -= len(p)
+
+	return len(p), nil
+}
+
 // fillAndTransfer fills a cache of family chain[0] with generated entries and relays it along
 // the chain; transfer performs one hop (nil = Dump into a buffer + Restore from it).
 func fillAndTransfer(c *Case, chain []string, transfer func(src, dst dumpCache, want int)) {
@@ -304,7 +321,14 @@ func fillAndTransfer(c *Case, chain []string, transfer func(src, dst dumpCache, 
 
 	var n int
 
-	switch c.Weighted("size", 1, 6, 2, 1) {
+	sameShard := false
+
+	switch c.Weighted("size", 2, 12, 4, 2, 1) {
+	case 4:
+		// hundreds of entries in ONE of the source's shards (and some thousand overall now and then)
+		n = c.Int("n", 65, 400)
+		sameShard = true
+		c.Class("many-entries-in-one-shard")
 	case 0:
 		n = 0
 	case 1:
@@ -321,6 +345,10 @@ func fillAndTransfer(c *Case, chain []string, transfer func(src, dst dumpCache, 
 
 	for len(keys) < n {
 		k := drawKey(c)
+		if sameShard {
+			k = sameShardPool[len(keys)]
+		}
+
 		if keys[string(k)] {
 			k = append(k, []byte(fmt.Sprintf("#%d", len(keys)))...)
 		}
@@ -386,6 +414,14 @@ func fillAndTransfer(c *Case, chain []string, transfer func(src, dst dumpCache, 
 			transfer(cur, dst, n)
 		} else {
 			var buf bytes.Buffer
+
+			// a dump that failed half way (broken connection) must not disturb the next one
+			if n > 0 && c.Weighted("failed-dump-first", 3, 1) == 1 {
+				fw := &failWriter{left: c.Int("fail-after", 0, 200)}
+				_, ferr := cur.wdr().Dump(fw)
+				c.Tracef("hop %d: Dump into a writer failing after %d bytes = %v", h, fw.left, ferr)
+				c.Class("failed-dump-before")
+			}
 
 			dn, derr := cur.dump(&buf)
 			c.Tracef("hop %d: %s.Dump = %d, %v (%d bytes)", h, cur.kind(), dn, derr, buf.Len())
